@@ -179,16 +179,41 @@ class EscapeAnalysis:
         elts = h.type.elts if isinstance(h.type, ast.Tuple) else [h.type]
         names = []
         for e in elts:
-            n = self.exc_name(fn, e)
+            n = None if isinstance(e, ast.Call) else self.exc_name(fn, e)
             if n is None:
                 # a module-level constant naming a tuple of classes: `except _OP_ERRORS:`
                 more = self._constant_classes(fn, e)
+                if more is None:
+                    more = self._folded_classes(fn, e)
                 if more is None:
                     raise AnalysisError(f"cannot resolve handler class `{short(e)}` in {fn.qualname}")
                 names.extend(more)
                 continue
             names.append(n)
         return names
+
+    def _folded_classes(self, fn: FuncInfo, e: ast.expr) -> Optional[List[str]]:
+        """Handler classes computed from a constant table: `except tuple(k for k, _ in _TABLE)`."""
+        from .consteval import ClassRef
+        from .consteval import ExtRef
+        from .consteval import NotConst
+
+        try:
+            v = self.folder.eval_in(e, fn.module, fn.cls)
+        except NotConst:
+            return None
+        items = list(v) if isinstance(v, (tuple, list)) else [v]
+        out: List[str] = []
+        for x in items:
+            if isinstance(x, ClassRef):
+                out.append(x.cls.qualname)
+            elif isinstance(x, ExtRef):
+                name = str(x.name)
+                out.append({"json.JSONDecodeError": "json.JSONDecodeError", "json.decoder.JSONDecodeError": "json.JSONDecodeError",
+                            "re.error": "re.error"}.get(name, name.split(".")[-1]))
+            else:
+                return None
+        return out or None
 
     def _constant_classes(self, fn: FuncInfo, e: ast.expr, depth: int = 0) -> Optional[List[str]]:
         if depth > 3 or not isinstance(e, ast.Name):
